@@ -36,6 +36,7 @@ TargetOf ==
       checkGet      |-> [method |-> "GET", target |-> "http://_check/"],
       udpPost       |-> [method |-> "POST", target |-> "http://_udp2/"],
       connectNoPort |-> [method |-> "CONNECT", target |-> "example.org"],
+      getNoHost     |-> [method |-> "GET", target |-> "/index.html"],
       upperCheck    |-> [method |-> "CONNECT", target |-> "_CHECK:443"],
       checkPort     |-> [method |-> "CONNECT", target |-> "_check:80"],
       udpSuffix     |-> [method |-> "CONNECT", target |-> "_udp2x:443"] ]
